@@ -113,6 +113,31 @@ HUNT3 = {
  "C20": "Hunt rounds 2-3: hover accepts the node a shorthand field is recorded under; can_cast and cast agree on what an expression is.",
 }
 
+# clauses added after seeding round 7 (seeded/ROUNDS.md); appended after HUNT3
+ROUND7 = {
+ "C01": "Round 7: a continuation is lowered in the mode of the lowering it belongs to; branch statements stay inside their If; every sub-term is "
+        "translated before an early return; name lookup order (shared with C05).",
+ "C02": "Round 7: a loop body is unit, so effect position holds no bare expression statement (shared with C03).",
+ "C03": "Round 7: pattern constraints are pushed on every path; trait calls find the implementation they run (shared with C17).",
+ "C04": "Round 7: ill-typed patterns cannot pass the typer; type decomposers are applied to their own kind.",
+ "C05": "Round 7: only the variant set makes an identifier pattern a constructor; package definitions come before by-name intrinsics.",
+ "C06": "Round 7: no rebuilding loop of the match compiler or Go DCE leaves early or skips a clause.",
+ "C07": "Round 7: the generic-method index holds generic definitions only; unification sees substituted use types.",
+ "C08": "Round 7: locals of the conversion scope are typed from their scope entry; generic functions as values are specialised at substituted types.",
+ "C09": "Round 7: branch statements are confined to their If; nothing is dropped before an early return.",
+ "C10": "Round 7: associativity of * and / (shared with C11); an arithmetic node never returns one operand in place of the operation.",
+ "C11": "Round 7: look-ahead and cursor skip the same tokens; a closure literal callee is lowered on its own (known finding: an empty argument list handed down is lost).",
+ "C12": "Round 7: only the end of input ends the top-level loop; parser panic sites are ledgered (shared with C20).",
+ "C13": "Round 7: no static item of the workspace holds mutable state.",
+ "C14": "Round 7: no successful exit of build before its artifacts are written; every pinned hash compared (shared with C15).",
+ "C15": "Round 7: input files are sorted and de-duplicated by identity (shared with C13).",
+ "C16": "Round 7: the refusal of an import back rests on the dependency's deps alone.",
+ "C17": "Round 7: ambiguity is decided on the unfiltered candidate list; Self is instantiated under every type former (shared with C07).",
+ "C18": "Round 7: the field-less struct has a rendering of its own.",
+ "C19": "Round 7: derive-invented binders stay outside the user name space (shared with C18); a user function named like an intrinsic is not captured.",
+ "C20": "Round 7: the derive-expanded AST is what the query pipelines type-check.",
+}
+
 CLAIMED = {
  "C01": dict(
    text="Semantic preservation is NOT decided. Decided on every arm of every pass: pass totality (no catch-all over the input IR, anchor "
@@ -297,6 +322,8 @@ def main():
                 c["text"] = c["text"] + " " + ROUND6[pid]
             if pid in HUNT3:
                 c["text"] = c["text"] + " " + HUNT3[pid]
+            if pid in ROUND7:
+                c["text"] = c["text"] + " " + ROUND7[pid]
             m["checks"].append({
                 "property_id": pid,
                 "quick_cmd": f"./check {pid} --tier quick",
